@@ -815,7 +815,7 @@ public:
         bool             completed = false;
         Rng              rnd(mix(seed, 99));
         int              bound = exhaustive_2t ? -1 : 3;
-        std::string      hdr   = round_header(rs, "sched", seed, std::string(" points=") + (aup ? "2" : "1"));
+        std::string      hdr   = round_header(rs, exhaustive_2t ? "sched2" : "sched3", seed, std::string(" points=") + (aup ? "2" : "1"));
         for (;;)
         {
             RoundOutcome ro;
@@ -855,7 +855,7 @@ public:
         if (rs.programs.size() < 2)
             return;
         ++st.programs;
-        std::string hdr = round_header(rs, "sched-random", seed, " points=2");
+        std::string hdr = round_header(rs, "schedr", seed, " points=2");
         Rng         rnd(mix(seed, 4242));
         for (int i = 0; i < nsched; ++i)
         {
@@ -920,6 +920,10 @@ int main(int argc, char** argv)
     int         kind = LRU, worker = 0, nworkers = 1, max_sched = 3000, nrandom = 40;
     uint64_t    n = 100, seed = 1;
     bool        typeset1 = false;
+    std::string replay_mode;
+    uint64_t    replay_seed = 0;
+    int         replay_points = 1, repeat = 200;
+    std::vector<int> replay_choices;
     for (int i = 1; i < argc; ++i)
     {
         std::string a   = argv[i];
@@ -944,6 +948,21 @@ int main(int argc, char** argv)
             nrandom = std::atoi(nxt().c_str());
         else if (a == "--typeset1")
             typeset1 = true;
+        else if (a == "--replay-mode")
+            replay_mode = nxt();
+        else if (a == "--replay-seed")
+            replay_seed = std::strtoull(nxt().c_str(), nullptr, 10);
+        else if (a == "--points")
+            replay_points = std::atoi(nxt().c_str());
+        else if (a == "--repeat")
+            repeat = std::atoi(nxt().c_str());
+        else if (a == "--choices")
+        {
+            std::istringstream is(nxt());
+            int                c;
+            while (is >> c)
+                replay_choices.push_back(c);
+        }
     }
     if (kind < 0)
     {
@@ -955,6 +974,40 @@ int main(int argc, char** argv)
     Engine E;
     E.kind     = kind;
     E.out_path = out;
+    if (!replay_mode.empty())
+    {
+        // re-execute one recorded round: controlled schedules exactly (choice sequence), free-running rounds by
+        // repeating the same seed until the violation shows again (up to --repeat times)
+        int rc = 0;
+        if (replay_mode == "free")
+        {
+            for (int i = 0; i < repeat && E.viols.empty(); ++i)
+                E.free_round(replay_seed, typeset1);
+            std::printf("free-running round %" PRIu64 " repeated up to %d time(s): %zu violating execution(s)\n", replay_seed, repeat, E.viols.size());
+        }
+        else
+        {
+            bool      two = replay_mode == "sched2";
+            int       nth = two ? 2 : 3;
+            RoundSpec rs  = replay_mode == "schedr" ? E.make_round(replay_seed, 3, 4, 2, 3, false) : E.make_round(replay_seed, nth, nth, 1, two ? 3 : 2, false);
+            std::vector<int> made, options;
+            RoundOutcome     ro;
+            E.sched_exec(rs, replay_choices, nullptr, replay_points == 2, -1, made, options, ro);
+            E.account(rs, ro, Engine::round_header(rs, "sched", replay_seed, ""));
+            for (auto& l : ro.lines)
+                std::printf("%s\n", l.c_str());
+        }
+        for (auto& v : E.viols)
+        {
+            rc = 1;
+            for (auto& l : v.lines)
+                std::printf("%s\n", l.c_str());
+            std::printf("REPLAY: violated: %s: %s\n", v.tags.empty() ? "?" : v.tags[0].c_str(), v.detail.c_str());
+        }
+        if (rc == 0)
+            std::printf("REPLAY: no violation\n");
+        return rc;
+    }
     uint64_t base = mix(mix(seed, hash_str(mode)), (uint64_t)kind * 1315423911ULL + 17);
     for (uint64_t i = (uint64_t)worker; i < n; i += (uint64_t)nworkers)
     {
